@@ -10,6 +10,10 @@ AttrTable == {
   [a |-> "StringDataEncoding.encoding", vals |-> {"UTF-8", "US-ASCII", "UTF-16LE"}, womit |-> {}, rdefault |-> "UTF-8"],
   [a |-> "ParameterInstanceRef.useCalibratedValue", vals |-> {"true", "false"}, womit |-> {}, rdefault |-> "true"],
   [a |-> "Comparison.useCalibratedValue", vals |-> {"true", "false"}, womit |-> {}, rdefault |-> "true"],
+  [a |-> "Condition.left.useCalibratedValue", vals |-> {"true", "false"}, womit |-> {}, rdefault |-> "true"],
+  [a |-> "Condition.right.useCalibratedValue", vals |-> {"true", "false"}, womit |-> {}, rdefault |-> "true"],
+  [a |-> "Condition.operator", vals |-> {"==", "!=", "<", ">=", "leq", "gt"}, womit |-> {}, rdefault |-> "=="],
+  [a |-> "BooleanExpression.shape", vals |-> {"condition", "and", "or", "and-of-or", "or-of-and"}, womit |-> {}, rdefault |-> "condition"],
   [a |-> "Comparison.comparisonOperator", vals |-> {"==", "!=", "<", ">", "<=", ">="}, womit |-> {}, rdefault |-> "=="],
   [a |-> "SplineCalibrator.order", vals |-> {"0", "1"}, womit |-> {}, rdefault |-> "0"],
   [a |-> "SplineCalibrator.extrapolate", vals |-> {"true", "false"}, womit |-> {}, rdefault |-> "false"],
